@@ -604,6 +604,7 @@ def select_error_kwargs(
     """
     assert contract.error_arg_set is not None
     assert contract.error_args is not None
+    assert contract.error_mandatory_args is not None
 
     error_kwargs = {
         arg_name: value
@@ -611,8 +612,12 @@ def select_error_kwargs(
         if arg_name in contract.error_arg_set
     }
 
+    # The arguments of the error function which have a default value need not be supplied
+    # (as it is the case with the arguments of the condition).
     missing_args = [
-        arg_name for arg_name in contract.error_args if arg_name not in resolved_kwargs
+        arg_name
+        for arg_name in contract.error_mandatory_args
+        if arg_name not in resolved_kwargs
     ]
     if missing_args:
         msg_parts = []  # type: List[str]
